@@ -1012,6 +1012,11 @@ class Restart:
         if fs is None or fs.real is None:
             return res(NOOP)
         prof = run.profile
+        if getattr(run, "real_mode", False):
+            # real file (cross-check of the simulated disk): a plain second session
+            run.close_file(fs)
+            run.open_file(fs.path, "rw", fs.compr, o.get("auto_ts", True))
+            return res(OK)
         before_i = K.walk_introspect(fs.real) if prof.reopen_introspect else None
         run.check_state("pre_restart")
         run.close_file(fs)
